@@ -164,6 +164,12 @@ GUARDS = [
         'if (post->amount.is_null()) { if (! diff.is_zero()) { post->amount = diff.to_amount();',
         '} else { post->amount = amt - amt;',
         'amount_t this_amt(post->amount.strip_annotations(keep_details_t())); if (! amt.has_commodity() || this_amt.commodity() == amt.commodity()) diff -= this_amt; if (! no_assertions && ! diff.is_zero()) {']),
+    (['C09'], 'generated_postings_reach_accounts', 'src/xact.cc', r'void\s+auto_xact_t::extend_xact\s*\(', [
+        'xact.add_post(new_post);', 'new_post->account->add_post(new_post);',
+        'new_post->xdata().add_flags(POST_EXT_VISITED);', 'new_post->account->xdata().add_flags(ACCOUNT_EXT_VISITED);']),
+    (['C09'], 'written_postings_reach_accounts', 'src/xact.cc', r'bool\s+xact_base_t::finalize\s*\(\s*\)\s*\{', [
+        'post->account->add_post(post);',
+        'post->xdata().add_flags(POST_EXT_VISITED);', 'post->account->xdata().add_flags(ACCOUNT_EXT_VISITED);']),
     (['C09'], 'include_passes_no_assertions', 'src/textual.cc', r'void\s+instance_t::include_directive\s*\(', [
         'instance_t instance(context_stack, context_stack.get_current(), this, no_assertions, hash_type);']),
     (['C09'], 'session_keeps_totals_across_files', 'src/session.cc', r'std::size_t\s+session_t::read_data\s*\(', [
